@@ -508,7 +508,9 @@ func solve(query string, timeoutS int) (SolveResult, []SolveResult) {
 	if r.Status == "unsat" {
 		return r, all
 	}
-	// second tier: all solvers at the full budget, in parallel; as soon as one proves the query the others are stopped
+	// second tier: all solvers at the full budget plus z3 5.1 under four more fixed random seeds, in parallel (quantifier
+	// instantiation is sensitive to the seed: a query that times out under one seed is often decided at once under
+	// another; the list is fixed, so the outcome is reproducible); as soon as one proves the query the others are stopped
 	ctx2, cancel2 := context.WithCancel(context.Background())
 	var wg sync.WaitGroup
 	var mu sync.Mutex
@@ -529,6 +531,23 @@ func solve(query string, timeoutS int) (SolveResult, []SolveResult) {
 			report(rr)
 		}(i)
 	}
+	var seedRes []SolveResult
+	if timeoutS > quick {
+		for _, sd := range []int{2, 3, 5, 6} {
+			wg.Add(1)
+			go func(sd int) {
+				defer wg.Done()
+				sp := solverSpec{fmt.Sprintf("z3-5.1.0/seed%d", sd), func(t int) []string {
+					return []string{"z3-new", "-in", "-smt2", fmt.Sprintf("-T:%d", wallFor(t)), fmt.Sprintf("rlimit=%d", t*z3UnitsPerSec), fmt.Sprintf("smt.random_seed=%d", sd), fmt.Sprintf("sat.random_seed=%d", sd)}
+				}}
+				rr := runSolverCtx(ctx2, sp, query, timeoutS, true)
+				mu.Lock()
+				seedRes = append(seedRes, rr)
+				mu.Unlock()
+				report(rr)
+			}(sd)
+		}
+	}
 	var r0 SolveResult
 	if r.Status != "sat" && timeoutS > quick {
 		wg.Add(1)
@@ -547,6 +566,8 @@ func solve(query string, timeoutS int) (SolveResult, []SolveResult) {
 		all = append(all, r0)
 	}
 	all = append(all, res[1:]...)
+	sort.Slice(seedRes, func(i, j int) bool { return seedRes[i].Solver < seedRes[j].Solver })
+	all = append(all, seedRes...)
 	var best SolveResult
 	sawSat, sawUnsat := false, false
 	for _, x := range all {
@@ -567,40 +588,6 @@ func solve(query string, timeoutS int) (SolveResult, []SolveResult) {
 	if sawSat && sawUnsat {
 		best.Status = "disagree"
 		return best, all
-	}
-	if !sawSat && !sawUnsat && timeoutS > quick {
-		// third tier: the same query under other random seeds (a fixed list, so the outcome is reproducible). Quantifier
-		// instantiation is sensitive to the seed: queries that time out under one seed are often decided at once under another.
-		seeds := []int{2, 3, 5, 6}
-		sres := make([]SolveResult, len(seeds))
-		var wg2 sync.WaitGroup
-		ctx3, cancel3 := context.WithCancel(context.Background())
-		defer cancel3()
-		for i, sd := range seeds {
-			wg2.Add(1)
-			go func(i, sd int) {
-				defer wg2.Done()
-				sp := solverSpec{fmt.Sprintf("z3-5.1.0/seed%d", sd), func(t int) []string {
-					return []string{"z3-new", "-in", "-smt2", fmt.Sprintf("-T:%d", wallFor(t)), fmt.Sprintf("rlimit=%d", t*z3UnitsPerSec), fmt.Sprintf("smt.random_seed=%d", sd), fmt.Sprintf("sat.random_seed=%d", sd)}
-				}}
-				sres[i] = runSolverCtx(ctx3, sp, query, timeoutS, true)
-				if sres[i].Status == "unsat" {
-					cancel3()
-				}
-			}(i, sd)
-		}
-		wg2.Wait()
-		all = append(all, sres...)
-		for _, x := range sres {
-			if x.Status == "unsat" {
-				return x, all
-			}
-		}
-		for _, x := range sres {
-			if x.Status == "sat" {
-				return x, all
-			}
-		}
 	}
 	if !sawSat && !sawUnsat {
 		best = all[0]
